@@ -6,7 +6,7 @@ import DnsVerif.Model.Chain
 namespace DnsVerif.Chain
 
 /-- the RFC 8482 reply of `anyHandler` -/
-def hinfoReply (q : Query) (owner : String) : Response :=
+def hinfoReply (q : Query) (owner : Name) : Response :=
   { setReply q with answer := [hinfoRR owner] }
 
 /-- the chain as a flat decision list -/
@@ -16,7 +16,7 @@ def chainFlat (cfg : Cfg) (who : Query → Outcome) (q : Query) (db : MaxAns →
   | [] => handleFailed q
   | q0 :: _ =>
     if cfg.refuseANY = true ∧ q0.qtype = typeANY then .reply (hinfoReply q q0.name)
-    else if cfg.whoamiDomain ≠ "" ∧ whoamiMatch cfg.domain q0.name = true then who q
+    else if cfg.whoamiDomain ≠ [] ∧ whoamiMatch cfg.domain q0.name = true then who q
     else db cfg.maxAns q
 
 theorem dbHandler_some (db : MaxAns → Query → Outcome) (n : Nat) (q : Query) :
@@ -31,7 +31,7 @@ theorem chain_eq_flat (cfg : Cfg) (who : Query → Outcome) (q : Query)
     have hlen : ¬ ((q0 :: rest).length < 1) := by simp
     rw [if_neg hlen]
     by_cases hr : cfg.refuseANY = true <;> by_cases ht : q0.qtype = typeANY <;>
-      by_cases hw : cfg.whoamiDomain = "" <;>
+      by_cases hw : cfg.whoamiDomain = [] <;>
       by_cases hm : whoamiMatch cfg.domain q0.name = true <;>
       simp [maxAnswerHandler, inner, anyHandler, whoamiHandler, dbHandler, hinfoReply,
         hq, hr, ht, hw, hm]
@@ -46,7 +46,7 @@ theorem anyRefused_iff (cfg : Cfg) (q : Query) :
 
 theorem whoamiHit_iff (cfg : Cfg) (q : Query) :
     whoamiHit cfg q = true ↔
-      ∃ q0 rest, q.questions = q0 :: rest ∧ cfg.whoamiDomain ≠ "" ∧
+      ∃ q0 rest, q.questions = q0 :: rest ∧ cfg.whoamiDomain ≠ [] ∧
         whoamiMatch cfg.domain q0.name = true := by
   unfold whoamiHit Query.name?
   cases hq : q.questions with
